@@ -382,6 +382,42 @@ func (s *spoofer) String() string {
 
 var v6ok bool
 
+// secondV6 is a global / unique-local IPv6 address of this host other than ::1 ("" if none): with
+// it two native IPv6 peers can talk to the same server.
+var secondV6 string
+
+func probeSecondV6() string {
+	ifs, err := net.Interfaces()
+	if err != nil {
+		return ""
+	}
+	for _, intf := range ifs {
+		if intf.Flags&net.FlagUp == 0 || intf.Flags&net.FlagLoopback != 0 {
+			continue
+		}
+		addrs, _ := intf.Addrs()
+		for _, a := range addrs {
+			ipn, ok := a.(*net.IPNet)
+			if !ok || ipn.IP.To4() != nil || ipn.IP.IsLinkLocalUnicast() || ipn.IP.IsLoopback() || ipn.IP.IsMulticast() {
+				continue
+			}
+			// usable as a source address towards ::1 ?
+			ln, err := net.Listen("tcp6", "[::1]:0")
+			if err != nil {
+				return ""
+			}
+			d := net.Dialer{Timeout: time.Second, LocalAddr: &net.TCPAddr{IP: ipn.IP}}
+			c, err := d.Dial("tcp6", ln.Addr().String())
+			ln.Close()
+			if err == nil {
+				c.Close()
+				return ipn.IP.String()
+			}
+		}
+	}
+	return ""
+}
+
 func probeV6() bool {
 	c, err := bindUDP("::1", 0)
 	if err != nil {
